@@ -1265,12 +1265,12 @@ class LagRate(Block):
 
         .. math ::
 
-            T \dot{y} &= (Ku - y) \\
-            y^{(0)} &= K u
+            T \dot{y} &= (Ku - Dy) \\
+            y^{(0)} &= K u / D
 
         """
-        self.y.v_str = f'{self.u.name} * {self.K.name}'
-        self.y.e_str = f'{self.K.name} * {self.u.name} - {self.name}_y'
+        self.y.v_str = f'{self.u.name} * {self.K.name} / {self.D.name}'
+        self.y.e_str = f'{self.K.name} * {self.u.name} - {self.D.name} * {self.name}_y'
 
 
 class LagAntiWindupRate(Block):
